@@ -179,7 +179,7 @@ class Run:
         ob = Obligation(name, self.fname, kind, list(self.st.pc) + list(extra_hyps), goal,
                         props=props if props is not None else self.cur_props, detail=detail, meta=meta)
         ob.path = list(self.path.taken)
-        ob.meta['branches'] = [str(z3.simplify(f))[:120] for f, k in zip(self.st.pc, self.st.pck) if k == 'B'][-12:]
+        ob.branch_terms = [f for f, k in zip(self.st.pc, self.st.pck) if k == 'B'][-12:]     # printed on demand
         self.obligs.append(ob)
         return ob
 
